@@ -246,6 +246,10 @@ pub fn check_pos_opt(ctx: &mut Ctx, p: &Pos, b: &Board, mode: u8) {
             }
         }
     }
+    // the castling texts in every position (legal or not): a returned move must be the legal castling
+    for t in ["O-O", "O-O-O"] {
+        check_text(ctx, p, b, &legal, t);
+    }
     // parsing soundness on the canonical texts' neighbourhood and the short pawn captures
     if edits {
         for t in &canon {
